@@ -442,6 +442,79 @@ class Module:
             self.out.append(f"@[pygen] def {cls}.{a.lstrip('_')}_stored ({binders} : Py.Kind) : Except PyErr Py.Kind := {tr(found[a])}")
             self.out.append("")
 
+    # -- T6b: straight-line float -> int code over exact dyadic values ------------------------------------------
+    def translate_float_to_int(self, cls: str, name: str, register: str, lean_name: str, param: str) -> None:
+        """T6b: a straight-line method taking one float and returning an int, built from `math.modf`, `int(x)`, `round(x)`,
+        `x * K` with K a module integer constant that is a power of two (the multiplication then only changes the exponent
+        and is exact), `+`, `+=` on ints -> a Lean term over `Py.Dyad` (exact dyadic rationals)."""
+        fn = self.find_func(cls, name, register)
+        body = [st for st in fn.body if not (isinstance(st, ast.Expr) and isinstance(st.value, ast.Constant))]
+        env: dict[str, str] = {param: "dyad"}
+        lines: list[str] = []
+
+        def fail(msg, node):
+            raise Untranslatable(f"{cls}.{name}[{register}]: {msg}", node, self.path)
+
+        def expr(e):
+            if isinstance(e, ast.Name):
+                if e.id in env:
+                    return env[e.id], e.id
+                c = self.find_const(e.id)
+                if c:
+                    return "int", c[0]
+                fail(f"unknown name {e.id}", e)
+            if isinstance(e, ast.Constant) and isinstance(e.value, int) and not isinstance(e.value, bool):
+                return "int", lit(e.value)
+            if isinstance(e, ast.Call) and isinstance(e.func, ast.Name) and len(e.args) == 1 and not e.keywords:
+                t, a = expr(e.args[0])
+                if e.func.id == "int" and t == "dyad":
+                    return "int", f"(Py.Dyad.toInt {a})"
+                if e.func.id == "round" and t == "dyad":
+                    return "int", f"(Py.Dyad.round {a})"
+                fail(f"call {e.func.id} on {t}", e)
+            if isinstance(e, ast.BinOp) and isinstance(e.op, (ast.Mult, ast.Add, ast.Sub)):
+                (ta, a), (tb, b) = expr(e.left), expr(e.right)
+                if ta == tb == "int":
+                    return "int", f"({a} {'*' if isinstance(e.op, ast.Mult) else ('+' if isinstance(e.op, ast.Add) else '-')} {b})"
+                if isinstance(e.op, ast.Mult) and {ta, tb} == {"dyad", "int"}:
+                    d, k = (a, b) if ta == "dyad" else (b, a)
+                    kn = e.right if ta == "dyad" else e.left
+                    c = self.find_const(kn.id) if isinstance(kn, ast.Name) else None
+                    kv = c[1] if c else (kn.value if isinstance(kn, ast.Constant) else None)
+                    if not isinstance(kv, int) or kv <= 0 or kv & (kv - 1):
+                        fail("a float may only be multiplied by a positive power-of-two integer constant (exact scaling)", e)
+                    return "dyad", f"(Py.Dyad.mulInt {d} {k})"
+                fail(f"operator on {ta}, {tb}", e)
+            fail(f"unsupported expression {ast.unparse(e)}", e)
+        for st in body[:-1]:
+            if (isinstance(st, ast.Assign) and len(st.targets) == 1 and isinstance(st.targets[0], ast.Tuple) and len(st.targets[0].elts) == 2
+                    and ast.unparse(st.value) == f"math.modf({param})" and all(isinstance(x, ast.Name) for x in st.targets[0].elts)):
+                f, w = (x.id for x in st.targets[0].elts)
+                env[f] = env[w] = "dyad"
+                lines.append(f"  let ({f}, {w}) := Py.Dyad.modf {param}")
+            elif isinstance(st, ast.Assign) and len(st.targets) == 1 and isinstance(st.targets[0], ast.Name):
+                t, v = expr(st.value)
+                env[st.targets[0].id] = t
+                lines.append(f"  let {st.targets[0].id} := {v}")
+            elif isinstance(st, ast.AugAssign) and isinstance(st.target, ast.Name) and isinstance(st.op, ast.Add) and env.get(st.target.id) == "int":
+                t, v = expr(st.value)
+                if t != "int":
+                    fail("+= of a non-int", st)
+                lines.append(f"  let {st.target.id} := {st.target.id} + {v}")
+            else:
+                fail(f"unsupported statement {ast.unparse(st)[:60]}", st)
+        last = body[-1]
+        if not isinstance(last, ast.Return) or last.value is None:
+            fail("must end in return", last)
+        t, v = expr(last.value)
+        if t != "int":
+            fail("must return an int", last)
+        self.out.append(f"/-- generated from `{cls}.{name}.register({register})` (float argument as an exact dyadic value) -/")
+        self.out.append(f"@[pygen] def {lean_name} ({param} : Py.Dyad) : Int :=")
+        self.out += lines
+        self.out.append(f"  {v}")
+        self.out.append("")
+
     # -- T7: the order of effects of a mutating method ---------------------------------------------------------
     def translate_effect_traces(self, cls: str, name: str, lean_name: str) -> None:
         """T7: the sequence of effects a mutating method performs on `self`, in program order, as a list of `Py.Eff`.
